@@ -422,6 +422,12 @@ func applyLockRequests(wvs *worldVirtualState, reqs []LockRequest) {
 			wvs.setLocker(id, wvs)
 		}
 	}
+
+	// A world read lock takes its base lazily from the real world state,
+	// so later lockers must not touch it before this one is committed.
+	if wvs.worldLock == AccountReadLock {
+		wvs.setLocker(WorldIDStr, wvs)
+	}
 }
 
 func (wvs *worldVirtualState) Commit() {
